@@ -160,6 +160,7 @@ type seqOpts struct {
 	adoptRate   int
 	damageRate  int  // percent of restarts preceded by tampering with the Persistence
 	wrapStart   bool // position the sequences near the 14-bit wrap
+	fsStore     bool // the Persistence is the library's FileSystem store in a scratch directory
 }
 
 func (sc *scenario) bc(c *simConn) *brokerConn {
@@ -781,6 +782,7 @@ func (h *hist) rewrite(f func(m map[uint][]byte)) {
 	h.store.mu.Lock()
 	f(h.store.m)
 	h.store.mu.Unlock()
+	h.store.syncFS()
 	h.rewrote = h.store.snapshot()
 	h.nontriv = true
 }
@@ -861,6 +863,16 @@ func newHist(r *rng, o seqOpts, stats map[string]int) (h *hist, initTerm string,
 	log := &evlog{}
 	sc := &scenario{r: r, opts: o, awaitRel: map[uint16]bool{}, conns: map[*simConn]*brokerConn{}, budgetIn: o.steps}
 	h = &hist{sc: sc, log: log, store: newSimStore(log), parked: map[int]*parkedReq{}, exch: map[int]<-chan error{}, nextX: 1, stats: stats}
+	if o.fsStore {
+		base := os.Getenv("VERIF_ROOT")
+		if base != "" {
+			base += "/work"
+		}
+		if dir, err := os.MkdirTemp(base, "fs-store-"); err == nil {
+			h.store.useFileSystem(dir)
+			stats["store:filesystem"]++
+		}
+	}
 	curHist.Store(h)
 	h.dialer = &simDialer{log: log, onDial: func(id int) (*simConn, bool) {
 		if sc.forceDialFail || (!sc.noFaults && r.intn(1000) < o.faultRate) {
@@ -940,6 +952,9 @@ func (h *hist) finish(o seqOpts) (term string, nontrivial bool, desc map[string]
 	}
 	h.settle()
 	h.log.take()
+	if h.store.fsDir != "" {
+		os.RemoveAll(h.store.fsDir)
+	}
 
 	term = fmt.Sprintf("Hist %s %s %s 0 [\n    %s]", h.cfgTerm, coqString(h.cid), coqEvents(h.initEvs), strings.Join(h.steps, ";\n    "))
 	desc = map[string]any{"kind": "history", "steps": len(h.steps), "bufsize": o.bufSize, "pause": o.pause,
